@@ -45,7 +45,8 @@ def run_one(tape, opts):
     out = Outcome()
     spec = pl.gen_stack(tape)
     top = spec[0]
-    hist = pl.gen_history(tape, extras=True, max_tests=9 if opts.get("tier") == "thorough" else 5)
+    # (skip_pair: the startTest-less addSkip + stopTest that unittest in Python 3.12.1 sends for a skipped stdlib test)
+    hist = pl.gen_history(tape, extras=True, skip_pair=True, max_tests=9 if opts.get("tier") == "thorough" else 5)
     # keep calls the outermost adapter cannot take by construction out of the history
     # (progress() is forwarded unconditionally by TestResultDecorator and absent from MultiTestResult/TestResult:
     # whether a given stack supports it is a property of the stack, not of the adapters' delivery guarantee)
@@ -86,6 +87,13 @@ def run_one(tape, opts):
                 decoy.step()
             hi = clock.peek()
             op = c[0]
+            if op == "stop":
+                # asking the outermost adapter whether to stop must work whatever the results behind it lack
+                try:
+                    if not result.shouldStop:
+                        out.violate("stop-lost", top, f"stop() on the outermost {top}, then shouldStop reads False; stack {spec}")
+                except Exception as e:   # noqa
+                    out.violate("adapter-raised", f"{type(e).__name__}-reading-shouldStop", f"after stop(): {e!r}; stack {spec}")
             if op == "time":
                 override = c[1]
             elif op == "startTestRun":
@@ -99,6 +107,9 @@ def run_one(tape, opts):
             if op == "startTest":
                 tests.append({"tid": c[1], "kind": c[2], "start": ("explicit", override) if override is not None else ("clock", lo, hi)})
             elif op == "outcome":
+                if not tests or tests[-1].get("complete"):
+                    # reported without startTest
+                    tests.append({"tid": c[1], "kind": c[2], "start": None, "startless": True})
                 tests[-1].update(method=c[3], mode=c[4], payload=c[5])
                 if c[4] == "details" and rep.last_details is not None and sorted(rep.last_details) != sorted(c[5]["details"]):
                     out.violate("caller-arg-mutated", "details-dict", f"the details dict passed with {c[3]} had keys {sorted(c[5]['details'])}, afterwards {sorted(rep.last_details)}; stack {spec}")
@@ -174,7 +185,8 @@ def _check_terminals(out, built, world, tests, spec, hist=()):
         got = [e for e in world.events if e.target == term["name"] and e.method in ("startTest", "stopTest") + OUTCOMES]
         want = []
         for t in tests:
-            want.append(("startTest", t["tid"]))
+            if not t.get("startless"):
+                want.append(("startTest", t["tid"]))
             if "method" in t:
                 want.append((DEGRADE.get(fl, {}).get(t["method"], t["method"]), t["tid"]))
             if t.get("complete"):
@@ -260,7 +272,9 @@ def _check_bytest(out, built, hist, spec):
                 for new, gone in reversed(bt["taggers"]):
                     m.apply(["tags", new, gone])
                 cur = {"tid": c[1], "start": override}
-            elif op == "outcome" and cur is not None:
+            elif op == "outcome":
+                if cur is None:
+                    cur = {"tid": c[1], "start": "startless"}
                 cur.update(method=c[3], mode=c[4], payload=c[5])
         if len(log) != len(want):
             out.violate("bytest-callback", "count-" + ("lost" if len(log) < len(want) else "duplicated"),
@@ -278,11 +292,15 @@ def _check_bytest(out, built, hist, spec):
                 out.violate("bytest-callback", "tags", f"{bt['name']}: {w['tid']} tags {sorted(got['tags'])} expected {sorted(w['tags'])}; stack {spec}")
             for which in ("start", "stop"):
                 gt = got[which + "_time"]
+                if w[which] == "startless":
+                    continue      # a test reported without startTest has no start time of its own
                 if w[which] is not None:
                     if gt != vclock.explicit_time(w[which]):
                         out.violate("bytest-callback", which + "-time", f"{bt['name']}: {w['tid']} {which}_time {gt} expected explicit {w[which]}")
                 elif gt is None or vclock.us_of(gt) is None or vclock.us_of(gt) <= 0:
                     out.violate("bytest-callback", which + "-time", f"{bt['name']}: {w['tid']} {which}_time {gt!r} is not a clock reading")
+            if w["start"] == "startless" and got["start_time"] is not None and got["stop_time"] is not None and got["start_time"] > got["stop_time"]:
+                out.violate("bytest-callback", "start-after-stop", f"{bt['name']}: startTest-less {w['tid']}: {got['start_time']} > {got['stop_time']} (an earlier test's start time?)")
             if w["start"] is None and w["stop"] is None and got["start_time"] and got["stop_time"] and got["start_time"] > got["stop_time"]:
                 out.violate("bytest-callback", "start-after-stop", f"{bt['name']}: {got['start_time']} > {got['stop_time']}")
             det = got["details"]
